@@ -69,7 +69,7 @@ static std::string body(const HCase& c) {
 		randomx_vm* vj = randomx_create_vm((randomx_flags)(RANDOMX_FLAG_JIT | vflag), g_cache, nullptr);
 		randomx_calculate_hash(vj, c.inputs[i].data(), c.inputs[i].size(), dj);
 		randomx_destroy_vm(vj);
-		bool alsoInterp = (i == 0);   // the interpreter is 6x slower: one input per key
+		bool alsoInterp = (i < 2);   // the interpreter is 6x slower: two inputs per key (one per version)
 		if (alsoInterp) {
 			randomx_vm* vi = randomx_create_vm((randomx_flags)vflag, g_cache, nullptr);
 			randomx_calculate_hash(vi, c.inputs[i].data(), c.inputs[i].size(), di);
@@ -151,7 +151,7 @@ int main(int argc, char** argv) {
 	vh::registerCheck<HCase>("spec", [] {
 		return gen::resize(100, gen::apply([](Bytes key, std::vector<Bytes> in, std::vector<int> vs) {
 			HCase c; c.key = key; c.inputs = in; for (size_t i = 0; i < in.size(); ++i) c.versions.push_back(1 + ((vs[i % vs.size()] + (int)i) & 1)); return c;
-		}, vg::genKey(), gen::container<std::vector<Bytes>>(4, vg::genInput()), gen::container<std::vector<int>>(4, gen::inRange(0, 2))));
+		}, vg::genKey(), gen::container<std::vector<Bytes>>(10, vg::genInput()), gen::container<std::vector<int>>(10, gen::inRange(0, 2))));
 	}, body, true);
 	vh::Sub s; s.name = "xbuild"; s.runGen = crossBuild;
 	s.runReplay = [](const vh::KV& kv) -> std::string { return xbody(XCase::parse(kv)); };
